@@ -1823,6 +1823,18 @@ func (db *DB) verifyWithExecutor(ctx context.Context, exec *syncExecutor) (info 
 		info.offset = WALHeaderSize
 		info.salt1, info.salt2 = salt1, salt2
 
+		// The shortcut below is only sound while litestream has held its read
+		// lock since the last sync. On the first sync after Open the WAL was
+		// restarted while litestream was not replicating: frames may have been
+		// appended to the previous generation after the last synced frame and
+		// checkpointed into the database without ever being copied, and a new
+		// generation shorter than the old cursor leaves the last synced frame
+		// intact, so the page match above proves nothing.
+		if exec.state.lastSyncedWALOffset == 0 {
+			info.reason = "wal restarted while not replicating, snapshotting"
+			return info, nil
+		}
+
 		if detected, err := db.detectFullCheckpoint(ctx, [][2]uint32{{salt1, salt2}, {dec.Header().WALSalt1, dec.Header().WALSalt2}}); err != nil {
 			return info, fmt.Errorf("detect full checkpoint: %w", err)
 		} else if detected {
